@@ -161,7 +161,7 @@ def parse_template(text, base_dir='.'):
                 m = re.match(r'"((?:[^"\\]|\\.)*)"\s*=>\s*"((?:[^"\\]|\\.)*)"\s+because\s+(.+)$', rest)
                 if not m:
                     raise TemplateError('line %d: bad sub directive' % ln)
-                cur['subs'].append((m.group(1).replace('\\"', '"'), m.group(2).replace('\\"', '"'), m.group(3)))
+                cur['subs'].append((m.group(1).replace('\\"', '"').replace('\\n', '\n'), m.group(2).replace('\\"', '"').replace('\\n', '\n'), m.group(3)))
                 sec = None
             else:
                 raise TemplateError('line %d: unknown directive %s' % (ln, kw))
